@@ -399,6 +399,26 @@ def addtag_rule(ctx, rule, repo, res):
         raise AnalysisError("_addTag signature changed")
     _self, body, t, msg = args
     ifs = [n for n in fn.body if isinstance(n, ast.If)]
+    if len(ifs) == 1 and re.fullmatch(rf"not {msg}\.is_group\({t}\)", unparse(ifs[0].test)):
+        # the dispatch written as a guard clause (`if not group: <plain>; return` followed by the group arm) or with the arms
+        # swapped: read as `if group: <group arm> else: <plain arm>`
+        from sa.normalize import _void_returns
+        from sa.guards import _detach
+        nested = _void_returns(_detach(fn))
+        if nested is not None:
+            n_ifs = [n for n in nested.body if isinstance(n, ast.If)]
+            if len(n_ifs) == 1 and isinstance(n_ifs[0].test, ast.UnaryOp):
+                g_if = n_ifs[0]
+                swapped = ast.If(g_if.test.operand, [x for x in g_if.orelse if not isinstance(x, ast.Pass)], [x for x in g_if.body if not isinstance(x, ast.Pass)])
+                ast.copy_location(swapped, ifs[0])
+                ast.fix_missing_locations(swapped)
+                mod_ = getattr(fn, "_module", None)
+                for parent_ in ast.walk(swapped):
+                    for child_ in ast.iter_child_nodes(parent_):
+                        child_._parent = parent_
+                    parent_._module = mod_
+                swapped._parent = fn
+                ifs = [swapped]
     if len(ifs) != 1 or not re.fullmatch(rf"{msg}\.is_group\({t}\)", unparse(ifs[0].test)):
         raise AnalysisError("_addTag: the is_group dispatch was not found")
     br = ifs[0]
